@@ -104,6 +104,9 @@ def run(ctx):
 
     # ---------------- power law ------------------------------------------------------
     idx_cat = [0.0, 0.5, 0.999, 1.0, 1.001, 1.5, 2.0, 2.2, 2.7, 3.0, 4.0]
+    # indices a hair away from 1, both sides: the expm1 / log1p form is accurate there (worst seen 2e-15
+    # decades); a form that cancels is not (seeded C12-16)
+    idx_cat += [float(np.nextafter(1.0, 2.0)), float(np.nextafter(1.0, 0.0)), 1 + 1e-12, 1 - 1e-12, 1 + 1e-9, 1 - 1e-9, 1 + 1e-6, 1 - 1e-6]
     bnd_cat = [(6.0, 12.0), (6.0, 6.5), (11.5, 12.0), (7.0, 10.0), (8.3, 8.300001)]
     cases = [(p, lo, hi) for p in idx_cat for (lo, hi) in bnd_cat]
     for _ in range(ctx.pick(300, 3000)):
@@ -183,7 +186,7 @@ def run(ctx):
                 # steep spectrum maps one ulp of u onto a tenth of a decade, so F(E) = u alone says little)
                 ctx.count("image")
                 want_li = image_decimal(ui, p, lo, hi)
-                tol_li = 1e-9 + (1e-14 / abs(1 - p) if p != 1 else 0.0)
+                tol_li = 1e-9  # flat: the inverse is well conditioned at every index, next to 1 included
                 worst_img = max(worst_img, abs(li - want_li) / tol_li)
                 if not abs(li - want_li) <= tol_li:
                     ctx.violation("image", f"power law index={p!r} bounds=({lo!r},{hi!r}): u={ui!r} -> log_e_nu={li!r}; the exact inverse-CDF image is {want_li!r} ({abs(li - want_li):.3e} decades away)", dict(wit, u=float(ui).hex(), loge=float(li).hex()))
